@@ -63,6 +63,23 @@ impl Phase for Mutations {
                 },
             }
         }
+        if r.chance(1, 16) {
+            // the program sits 60-140 sequence groups deep, with one closing parenthesis too many or too few
+            let d = r.range(60, 140);
+            let mut nested: Vec<Tok> = Vec::new();
+            for k in 0..d {
+                nested.push(Tok::Op("("));
+                nested.push(Tok::Int(k as i64));
+                nested.push(Tok::Op(if k % 2 == 0 { "," } else { ";" }));
+            }
+            nested.extend(toks.iter().cloned());
+            let closing = if r.chance(1, 2) { d + 1 } else { d - 1 };
+            for _ in 0..closing {
+                nested.push(Tok::Op(")"));
+            }
+            toks = nested;
+            out.count("damaged programs nested 60-140 groups deep with unbalanced parentheses");
+        }
         let src = render_spaced(&toks);
         out.begin(|| src.clone());
         let class = classify(&toks).0;
